@@ -6,6 +6,7 @@ import Driver.Monitor
 import Driver.HandlerVal
 import Driver.ConnVal
 import Driver.LinkVal
+import Driver.SLinkVal
 open Beetswap
 
 def splitAt (bs : List Nat) (cuts : List Nat) : List (List Nat) :=
@@ -193,10 +194,49 @@ def lvalidateMain (file : String) : IO Unit := do
     reports := reports + v.reports
   out.putStrLn s!"lvalidated nodes={order.length} lines={lines.length} handovers={handovers} reports={reports} rejected={bad}"
 
+/-- `bsdriver svalidate <link log>`: the same log replayed through the server-side composition
+`Model/ServerLink` (routing of `QueueOutgoingMessages` events, `remaining_established`, the record rule). -/
+def svalidateMain (file : String) : IO Unit := do
+  let lines := ((← IO.FS.readFile file).splitOn "\n").filter (!·.isEmpty)
+  let out ← IO.getStdout
+  let mut groups : Std.HashMap String (Array String) := {}
+  let mut order : List String := []
+  for l in lines do
+    match l.splitOn " " with
+    | r :: n :: rest =>
+      let key := s!"{r} {n}"
+      if !groups.contains key then order := key :: order
+      groups := groups.alter key fun a => some ((a.getD #[]).push (" ".intercalate rest))
+    | _ => pure ()
+  let mut bad := 0
+  let mut dispatched := 0
+  let mut delivered := 0
+  let mut closed := 0
+  let mut pending := 0
+  for key in order.reverse do
+    let mut v : Driver.SLinkVal.SV := {}
+    let mut i := 0
+    let mut failed := false
+    for l in (groups.getD key #[]) do
+      if !failed then
+        let (v', why) := Driver.SLinkVal.stepLine v l
+        v := v'
+        if let some w := why then
+          failed := true
+          bad := bad + 1
+          out.putStrLn s!"sviol {key} line {i}: `{l}`: {w}"
+      i := i + 1
+    dispatched := dispatched + v.dispatched
+    delivered := delivered + v.delivered
+    closed := closed + v.closedConns
+    pending := pending + v.s.outbox.length
+  out.putStrLn s!"svalidated nodes={order.length} lines={lines.length} dispatched={dispatched} delivered={delivered} undelivered={pending} connections_closed={closed} rejected={bad}"
+
 def main (args : List String) : IO Unit := do
   match args with
   | ["monitor", ops, imp] => monitorMain ops imp
   | ["hvalidate", file] => hvalidateMain file
   | ["cvalidate", file] => cvalidateMain file
   | ["lvalidate", file] => lvalidateMain file
+  | ["svalidate", file] => svalidateMain file
   | _ => loop (← IO.getStdin) (← IO.getStdout) {}
